@@ -564,6 +564,87 @@ def check_label_position_typing(model, rep):
         raise AnalysisError(f'label/position typing recognised only {ncmp} comparisons')
 
 
+def check_assemble_transposition(model, rep):
+    """R02.13: Assemble._compile_with_out emits `out[index1, index2, ...] += func.transpose(...)`.  NumPy places the broadcast axes of the
+    ADVANCED indices first whenever two of them (0-d ones included) are separated by a slice, and leaves them in place otherwise; the
+    operand must be transposed accordingly: (axes of func that belong to advanced indices, in order) + (axes of func that belong to
+    ranges, in order).  The method's own bookkeeping is interpreted (sa/miniexec.py: exact ints/lists, opaque builder/_pyast values)
+    for every arrangement of one to four indices that are a Range, or an advanced index with 0, 1 or 2 axes, and the permutation it
+    hands to array_add_at is compared with that rule."""
+    import itertools
+    from sa.miniexec import MiniExec, Opaque, Sym, Returned, AssertionFailed
+    from sa.algebra import Unsupported
+    f = model.func('evaluable:Assemble._compile_with_out')
+
+    class RangeT(Sym):
+        pass
+
+    class AdvT(Sym):
+        pass
+    bad = None
+    n = 0
+    try:
+        for length in (1, 2, 3, 4):
+            for kinds in itertools.product(('R', 'A0', 'A1', 'A2'), repeat=length):
+                indices = [RangeT(ndim=1, shape=[Opaque('n')]) if k == 'R' else AdvT(ndim=int(k[1]), shape=[Opaque('m')] * int(k[1])) for k in kinds]
+                nd = sum(i.ndim for i in indices)
+                self_ = Sym(indices=tuple(indices), func=Sym(ndim=nd), shape=tuple(Opaque('s') for _ in indices), ndim=len(indices))
+                ex = MiniExec({'self': self_, 'builder': Opaque('builder'), 'out': Opaque('out'), 'out_block_id': Opaque('bid'), 'mode': 'iadd', '_pyast': Opaque('_pyast'), 'Range': RangeT})
+                try:
+                    ex.run(f.node.body)
+                except Returned:
+                    pass
+                except AssertionFailed as e:
+                    bad = bad or (kinds, f'its own assertion `{e}` fails', None)
+                    continue
+                adds = [l for l in ex.log if l[0].endswith('.array_add_at')]
+                if len(adds) != 1 or len(adds[0][1]) != 3:
+                    raise AnalysisError('Assemble._compile_with_out: the array_add_at(out, indices, func) emission was not found')
+                cf = adds[0][1][2]
+                if cf.origin and cf.origin[0].endswith('.call') and "get_attr('transpose')" in cf.origin[0]:
+                    perm = [a.origin[1][0] if isinstance(a, Opaque) and a.origin else a for a in cf.origin[1]]
+                else:
+                    perm = list(range(nd))
+                # NumPy's rule
+                pos, ax = [], 0
+                adv_axes, rng_axes, adv_pos = [], [], []
+                for k_, ind in enumerate(indices):
+                    if isinstance(ind, RangeT):
+                        rng_axes.append(ax)
+                    else:
+                        adv_pos.append(k_)
+                        adv_axes.extend(range(ax, ax + ind.ndim))
+                    ax += ind.ndim
+                separated = len(adv_pos) >= 2 and adv_pos[-1] - adv_pos[0] != len(adv_pos) - 1
+                want = adv_axes + rng_axes if separated else list(range(nd))
+                n += 1
+                if perm != want and bad is None:
+                    bad = (kinds, f'the operand is transposed with {perm}', want)
+                # every advanced index is reshaped so that the advanced indices index their cross product: its own axes in place, a new axis for every axis of the others
+                tup = adds[0][1][1]
+                elems = list(tup.origin[1][0]) if isinstance(tup, Opaque) and tup.origin and tup.origin[0] == '_pyast.Tuple' else None
+                if elems is None or len(elems) != len(indices):
+                    raise AnalysisError('Assemble._compile_with_out: the tuple of compiled indices was not found')
+                total = sum(ind.ndim for ind in indices if not isinstance(ind, RangeT))
+                before = 0
+                for ind, ce in zip(indices, elems):
+                    if isinstance(ind, RangeT):
+                        continue
+                    wantpad = ','.join(['None'] * before + [':'] * ind.ndim + ['None'] * (total - before - ind.ndim)) if ind.ndim < total else None
+                    gotpad = None
+                    if isinstance(ce, Opaque) and ce.origin and ce.origin[0].endswith('.get_item') and isinstance(ce.origin[1][0], Opaque) and ce.origin[1][0].origin and ce.origin[1][0].origin[0] == '_pyast.Raw':
+                        gotpad = ce.origin[1][0].origin[1][0]
+                    if gotpad != wantpad and bad is None:
+                        bad = (kinds, f'an advanced index is reshaped with [{gotpad}] instead of [{wantpad}]', None)
+                    before += ind.ndim
+    except Unsupported as e:
+        raise AnalysisError(f'Assemble._compile_with_out uses a construct the evaluator does not know: {e}')
+    names = {'R': 'range', 'A0': 'scalar index', 'A1': 'index vector', 'A2': 'index matrix'}
+    rep.ob('R02.13', f.key, f.where(), bad is None, f'for all {n} arrangements of up to four range / advanced indices the operand is transposed as NumPy\'s combined indexing requires' if bad is None else
+           f'for the indices ({", ".join(names[k] for k in bad[0])}) {bad[1]}' + (f'; NumPy puts the advanced axes first when a slice separates two advanced indices, which needs {bad[2]}' if bad[2] is not None else '') +
+           ': the scattered values land in transposed positions (silently when the axis lengths coincide, a broadcast error otherwise)', statement='assemble-transposition')
+
+
 def run(model, rep, tier):
     rep.explanation = (
         'R02.1 def-use of every emitted in-place operation (array_fill_zeros/add_at/iadd/imul/copy and destinations handed to compile_with_out): the destination is the out parameter, a view of it, '
@@ -598,6 +679,8 @@ def run(model, rep, tier):
     from rules.c16 import check_shared_alloc
     from rules.c03 import _Rename
     check_shared_alloc(model, _Rename(rep, {'R16.4': 'R02.8'}))
+    rep.rule('R02.13', 'Assemble._compile_with_out transposes its operand as NumPy combined (advanced + slice) indexing requires (interpreted for all arrangements of up to 4 indices)')
+    check_assemble_transposition(model, rep)
     from rules.c16 import check_builder
     rep.rule('R02.12', 'parallel configuration: every generated statement that touches a shared array is emitted inside the lock of that array (= R16.3)')
     check_builder(model, _Rename(rep, {'R16.3': 'R02.12'}))
